@@ -241,6 +241,14 @@ HELPERS = {
 }
 
 
+# Documented signatures (doc/aggregation.rst, autodoc of dataiter/aggregate.py at the pinned version): drop_na is in effect
+# by default for the reductions that cannot digest a missing value, and not for the positional / counting helpers.
+DOC_DROP_DEFAULT = {"count": False, "count_unique": False, "first": False, "last": False, "nth": False,
+                    "max": True, "mean": True, "median": True, "min": True, "mode": True, "quantile": True,
+                    "std": True, "sum": True, "var": True}
+LEFT_OUT = "keyword left out: the documented default is in effect"
+
+
 def kept_seq(cx, x, drop):
     """the elements the statistic is computed from: all of them, or the non-missing ones in order"""
     it = cx.it
@@ -261,12 +269,12 @@ def default_term(cx, x, what):
     return M.to_v(cx.it, what)
 
 
-def _mk_vec_helper(name, drop):
+def _mk_vec_helper(name, drop, left_out=False):
     stat, req, dflt, drop_default, _ = HELPERS[name]
 
     class H(Contract):
         file, qualname, prop = F, name, "C07"
-        variant = f"vector form, drop_na={drop}"
+        variant = f"vector form, drop_na={drop}" if not left_out else f"vector form, {LEFT_OUT}"
         callees = AGG_CALLEES
         config = {"np_scalars": True}
 
@@ -277,7 +285,7 @@ def _mk_vec_helper(name, drop):
             k = x.sym["kind"]
             ok = [KCODE[n] for n in ("bool", "int", "float")] + ([KCODE["string"], KCODE["datetime"]] if name in ("min", "max") else [])
             cx.assume(z3.Or(*[k == c for c in ok]))
-            kw = {"drop_na": drop}
+            kw = {"drop_na": drop} if not left_out else {}
             if name in ("std", "var"):
                 kw["ddof"] = cx.int("ddof")
             return {"self": None, "args": [x], "kwargs": kw, "x": x}
@@ -294,13 +302,14 @@ def _mk_vec_helper(name, drop):
                 cx.prove("result = statistic of the (kept) elements, or the default when fewer than required",
                          r == z3.If(zint(kept.len) >= req, expected_stat, default_term(cx, x, dflt)))
             cx.prove("frame:no-write-into-input-buffers", no_input_writes(cx.ctx))
-    H.__name__ = f"Vec_{name}_{drop}"
+    H.__name__ = f"Vec_{name}_{drop}" + ("_left_out" if left_out else "")
     return register(H)
 
 
 for _h in HELPERS:
     for _d in (True, False):
         _mk_vec_helper(_h, _d)
+    _mk_vec_helper(_h, DOC_DROP_DEFAULT[_h], left_out=True)
 
 
 def mode1_contract(it, args, kwargs):
@@ -329,8 +338,10 @@ class _VecHelper(Contract):
     def extra_args(self, cx):
         return []
 
+    left_out = False
+
     def kw(self):
-        return {"drop_na": self.drop}
+        return {"drop_na": self.drop} if not self.left_out else {}
 
 
 def _reg(cls, qual, variant_, **attrs):
@@ -423,6 +434,9 @@ for _d in (True, False):
     _reg(_Nth, "last", f"vector form, drop_na={_d}", drop=_d, index=-1)
     _reg(_Mode, "mode", f"vector form, drop_na={_d}", drop=_d)
     _reg(_Quantile, "quantile", f"vector form, drop_na={_d}", drop=_d)
+for _c, _q, _a in ((_Count, "count", {}), (_CountUnique, "count_unique", {}), (_Nth, "nth", {}), (_Nth, "first", {"index": 0}),
+                   (_Nth, "last", {"index": -1}), (_Mode, "mode", {}), (_Quantile, "quantile", {})):
+    _reg(_c, _q, f"vector form, {LEFT_OUT}", drop=DOC_DROP_DEFAULT[_q], left_out=True, **_a)
 
 
 # =========================================================================================
@@ -494,7 +508,7 @@ def grouped_data(cx, kinds):
     return data, px, pg
 
 
-def _mk_group_helper(name, drop):
+def _mk_group_helper(name, drop, left_out=False, with_ddof=False):
     stat, req, kernel_default, doc_default = GROUP_HELPERS[name]
 
     class G(Contract):
@@ -503,13 +517,16 @@ def _mk_group_helper(name, drop):
         order, or the kernel default when the group has fewer elements than required; .default is the documented default
         which DataFrame.aggregate substitutes for None."""
         file, qualname, prop = F, name, "C07"
-        variant = f"group-wise form, drop_na={drop}"
+        variant = (f"group-wise form, drop_na={drop}" if not left_out else f"group-wise form, {LEFT_OUT}") + (", ddof given" if with_ddof else "")
         callees = GROUP_CALLEES
         config = {"USE_NUMBA": z3.BoolVal(False)}
 
         def setup(self, cx):
             cx.it.np_scalars = True
-            return {"self": None, "args": ["x"], "kwargs": {"drop_na": drop}}
+            kw = {"drop_na": drop} if not left_out else {}
+            if with_ddof:
+                cx.ddof = kw["ddof"] = cx.int("ddof")         # any delta degrees of freedom, 0 included
+            return {"self": None, "args": ["x"], "kwargs": kw}
 
         def ensures(self, cx, result):
             from pyvc.interp import Closure
@@ -556,19 +573,27 @@ def _mk_group_helper(name, drop):
                 kept = plain
             kd = {"nan": NAN, None: NONE}.get(kernel_default, M.to_v(it, kernel_default) if kernel_default not in ("nan", None) else None)
             expected = stat_term(it, stat, kept)
+            if with_ddof:
+                # np.std(x) / np.var(x) is the statistic with ddof=0 (NumPy's default); any other ddof is the statistic with that
+                # ddof - whatever the kernel (Numba's np.std / np.var take no ddof, so those calls may not be routed to it)
+                expected = z3.If(cx.ddof == 0, expected, stat_term(it, stat + "_ddof", kept, [cx.ddof]))
             if req > 0:
                 expected = z3.If(zint(kept.len) >= req, expected, kd)
             cx.prove("entry t = statistic of group t's (kept) elements, or the default when too few", M.to_v(it, res.at(t)) == expected)
             dd = it.getattr(result, "default")
             want = {"nan": NAN, "na_value": na_value_term(it, kind)}.get(doc_default, M.to_v(it, doc_default) if not isinstance(doc_default, str) else None)
             cx.prove("documented default", M.to_v(it, dd) == want)
-    G.__name__ = f"Grp_{name}_{drop}"
+    G.__name__ = f"Grp_{name}_{drop}" + ("_left_out" if left_out else "") + ("_ddof" if with_ddof else "")
     return register(G)
 
 
 for _h in GROUP_HELPERS:
     for _d in (True, False):
         _mk_group_helper(_h, _d)
+    _mk_group_helper(_h, DOC_DROP_DEFAULT[_h], left_out=True)
+    if _h in ("std", "var"):
+        _mk_group_helper(_h, True, with_ddof=True)
+        _mk_group_helper(_h, False, with_ddof=True)
 
 
 class _GroupForm(Contract):
@@ -583,10 +608,11 @@ class _GroupForm(Contract):
     def setup(self, cx):
         cx.it.np_scalars = True
         cx.extra = [cx.int("index") if e == "index" else cx.val(e) for e in self.extra]
-        kw = {"drop_na": self.drop} if self.has_drop else {}
+        kw = {"drop_na": self.drop} if self.has_drop and not self.left_out else {}
         return {"self": None, "args": ["x"] + cx.extra, "kwargs": kw}
 
     has_drop = True
+    left_out = False
 
     def column(self, cx, sym, px):
         """elements the kernel sees (after the helper's own conversion)"""
@@ -737,6 +763,9 @@ class _GQuantile(_GroupForm):
 
 for _d in (True, False):
     _reg(_GQuantile, "quantile", f"group-wise form, drop_na={_d}", drop=_d)
+for _c, _q, _a in ((_GCount, "count", {}), (_GCountUnique, "count_unique", {}), (_GNth, "nth", {}), (_GNth, "first", {"fixed": 0}),
+                   (_GNth, "last", {"fixed": -1}), (_GMode, "mode", {}), (_GQuantile, "quantile", {})):
+    _reg(_c, _q, f"group-wise form, {LEFT_OUT}", drop=DOC_DROP_DEFAULT[_q], left_out=True, **_a)
 
 
 # ---------------------------------------------------------------------------------------------------------------------
